@@ -27,18 +27,14 @@ theorem tgood_bumped {c : Cfg} {t t1 : TtlMap} {g k g' : Nat} {hh : Int} {d : Na
     have := (h.cnt st id hc).1
     omega
 
-/-- `execute` (a foreground `_get_and_save`) after the bump -/
-theorem good_execute {c : Cfg} (httl : 0 < c.ttl) {b : Bool} {s : St} {g k : Nat} (h : Good c b s g k)
-    (hseq : b = false → s.inflight = []) {t1 : TtlMap} {hh : Int} {d : Nat}
-    (hnow : t1.now = s.t.now) (hmain : t1.m kMain = s.t.m kMain) (h1 : 1 ≤ hh)
-    (hm : t1.m kAux = some ⟨.int hh, some d⟩)
-    (hfacts : ∀ st id, cached2 s.t = some (st, id) → st + c.ttl ≤ d ∧ hh = ctr s.t + 1) (o : Outcome) :
-    Good c b (execute c s t1 o).1 (runAfter b g (.call o) (.call (execute c s t1 o).2))
-      (callsAfter k (.call o) (.call (execute c s t1 o).2)) := by
+/-- `execute` (a foreground `_get_and_save`) at the moment the function has finished, `t1` being the store with the
+counter bumped when the call began and the clock moved on by the function's duration -/
+theorem good_execute {c : Cfg} (httl : 0 < c.ttl) {b : Bool} {s : St} {g k : Nat}
+    (hseq : b = false → s.inflight = []) {t1 : TtlMap} (hbump : TGood c t1 0 (k + 1)) (o : Outcome) (d : Nat) :
+    Good c b (execute c s t1 o).1 (runAfter b g (.call o d) (.call (execute c s t1 o).2))
+      (callsAfter k (.call o d) (.call (execute c s t1 o).2)) := by
   have hfl : ∀ g' : Nat, b = false → s.inflight ≠ [] → 0 < c.upd ∧ c.upd ≤ c.hits ∧ g' ≤ 1 :=
     fun g' hb hne => absurd (hseq hb) hne
-  have hbump : TGood c t1 0 (k + 1) :=
-    tgood_bumped h.tg hnow hmain h1 hm hfacts (by omega) (fun _ _ _ => Or.inl (by omega))
   unfold execute
   cases o with
   | ok =>
@@ -68,17 +64,19 @@ theorem good_execute {c : Cfg} (httl : 0 < c.ttl) {b : Bool} {s : St} {g k : Nat
       exact tgood_reset hbump (by omega) (Or.inl rfl)
 
 theorem good_call {c : Cfg} (httl : 0 < c.ttl) {b : Bool} {s : St} {g k : Nat} (h : Good c b s g k)
-    (hseq : b = false → s.inflight = []) (o : Outcome) :
-    Good c b (call c s o).1 (runAfter b g (.call o) (.call (call c s o).2))
-      (callsAfter k (.call o) (.call (call c s o).2)) := by
+    (hseq : b = false → s.inflight = []) (o : Outcome) (dur : Nat) :
+    Good c b (call c s o dur).1 (runAfter b g (.call o dur) (.call (call c s o dur).2))
+      (callsAfter k (.call o dur) (.call (call c s o dur).2)) := by
   obtain ⟨t1, hh, d, hincr, hnow, hmain, h1, hm, hfacts⟩ := incr_facts httl h.tg
   have hfl : ∀ g' : Nat, b = false → s.inflight ≠ [] → 0 < c.upd ∧ c.upd ≤ c.hits ∧ g' ≤ 1 :=
     fun g' hb hne => absurd (hseq hb) hne
+  have hexec : TGood c (advance t1 dur) 0 (k + 1) :=
+    tgood_advance (tgood_bumped h.tg hnow hmain h1 hm hfacts (by omega) (fun _ _ _ => Or.inl (by omega))) dur
   unfold call
   rw [hincr]
   simp only []
   cases hc : cached2 s.t with
-  | none => exact good_execute httl h hseq hnow hmain h1 hm hfacts o
+  | none => exact good_execute httl hseq hexec o dur
   | some p =>
     obtain ⟨st, id0⟩ := p
     simp only []
@@ -94,16 +92,15 @@ theorem good_call {c : Cfg} (httl : 0 < c.ttl) {b : Bool} {s : St} {g k : Nat} (
         cases hbg : c.bg
         · -- foreground refresh
           simp only [Bool.false_eq_true, if_false]
-          have hbump0 : TGood c t1 0 (k + 1) :=
-            tgood_bumped h.tg hnow hmain h1 hm hfacts (by omega) (fun _ _ _ => Or.inl (by omega))
-          have hbump1 : TGood c t1 1 (k + 1) :=
-            tgood_bumped h.tg hnow hmain h1 hm hfacts (by omega) (fun _ _ _ => Or.inl (by omega))
+          have hbump0 : TGood c (advance t1 dur) 0 (k + 1) := hexec
+          have hbump1 : TGood c (advance t1 dur) 1 (k + 1) :=
+            tgood_advance (tgood_bumped h.tg hnow hmain h1 hm hfacts (by omega) (fun _ _ _ => Or.inl (by omega))) dur
           cases o with
           | ok =>
             refine ⟨?_, hfl _⟩
             simp only [runAfter, callsAfter, isStored, reachedSet, Outcome.reachesSet]
             simp
-            exact tgood_save httl t1 _ (by omega) (Or.inr ⟨hu1, hu2, by omega, by omega⟩)
+            exact tgood_save httl (advance t1 dur) _ (by omega) (Or.inr ⟨hu1, hu2, by omega, by omega⟩)
           | listed =>
             refine ⟨?_, hfl _⟩
             simp only [runAfter, callsAfter, isStored, reachedSet, Outcome.reachesSet]
@@ -148,7 +145,7 @@ theorem good_call {c : Cfg} (httl : 0 < c.ttl) {b : Bool} {s : St} {g k : Nat} (
           exact tgood_bumped h.tg hnow hmain h1 hm hfacts (by omega)
             (fun _ _ _ => Or.inr ⟨hB1, hB2, by omega, hlt⟩)
     · rw [if_neg hserve]
-      exact good_execute httl h hseq hnow hmain h1 hm hfacts o
+      exact good_execute httl hseq hexec o dur
 
 theorem good_done {c : Cfg} (httl : 0 < c.ttl) {b : Bool} {s : St} {g k : Nat} (h : Good c b s g k)
     (i : Nat) (o : Outcome) :
@@ -187,13 +184,13 @@ theorem good_done {c : Cfg} (httl : 0 < c.ttl) {b : Bool} {s : St} {g k : Nat} (
         simpa using hreset _ (fun g' hb hr => tgood_reset h.tg hb hr)
 
 /-- the hypothesis of the sequential reading: no call is made while a refresh is in flight -/
-def SeqOK (s : St) (op : DOp) : Prop := ∀ o, op = .call o → s.inflight = []
+def SeqOK (s : St) (op : DOp) : Prop := ∀ o d, op = .call o d → s.inflight = []
 
 theorem good_step {c : Cfg} (httl : 0 < c.ttl) {b : Bool} {s : St} {g k : Nat} (h : Good c b s g k) (op : DOp)
     (hseq : b = false → SeqOK s op) :
     Good c b (step c s op).1 (runAfter b g op (step c s op).2) (callsAfter k op (step c s op).2) := by
   cases op with
-  | call o => exact good_call httl h (fun hb => hseq hb o rfl) o
+  | call o d => exact good_call httl h (fun hb => hseq hb o d rfl) o d
   | adv dt => exact ⟨tgood_advance h.tg dt, h.fl⟩
   | done i o => exact good_done httl h i o
 
@@ -225,19 +222,19 @@ theorem good_run {c : Cfg} (httl : 0 < c.ttl) (b : Bool) :
 /-- when a call finds a stored result: a refresh task is created exactly when this is the
 `update_after`-th call since the store (and `update_after` is not beyond `cache_hits`) -/
 theorem call_started {c : Cfg} (httl : 0 < c.ttl) {b : Bool} {s : St} {g k : Nat} (h : Good c b s g k) (o : Outcome)
-    {st id : Nat} (hc : cached2 s.t = some (st, id)) :
-    ((call c s o).2.started = true ↔ (k + 1 = c.upd ∧ c.upd ≠ 0 ∧ c.upd ≤ c.hits)) ∧
-    (k + 1 ≤ c.hits → (call c s o).2.res = .stored st id ∨
-        (c.bg = false ∧ o.raises = true ∧ k + 1 = c.upd ∧ (call c s o).2.res = o.result s.t.now s.nexec)) ∧
-    (c.hits < k + 1 → (call c s o).2.exec = true ∧ (call c s o).2.started = false ∧
-        (call c s o).2.res = o.result s.t.now s.nexec) := by
+    (dur : Nat) {st id : Nat} (hc : cached2 s.t = some (st, id)) :
+    ((call c s o dur).2.started = true ↔ (k + 1 = c.upd ∧ c.upd ≠ 0 ∧ c.upd ≤ c.hits)) ∧
+    (k + 1 ≤ c.hits → (call c s o dur).2.res = .stored st id ∨
+        (c.bg = false ∧ o.raises = true ∧ k + 1 = c.upd ∧ (call c s o dur).2.res = o.result (s.t.now + dur) s.nexec)) ∧
+    (c.hits < k + 1 → (call c s o dur).2.exec = true ∧ (call c s o dur).2.started = false ∧
+        (call c s o dur).2.res = o.result (s.t.now + dur) s.nexec) := by
   obtain ⟨t1, hh, d, hincr, hnow, hmain, h1, hm, hfacts⟩ := incr_facts httl h.tg
   obtain ⟨hctr, _⟩ := h.tg.cnt st id hc
   obtain ⟨_, hhh⟩ := hfacts st id hc
   have hk : hh = (k : Int) + 1 := by omega
-  have hex : (execute c s t1 o).2.exec = true ∧ (execute c s t1 o).2.started = false ∧
-      (execute c s t1 o).2.res = o.result s.t.now s.nexec := by
-    unfold execute; cases o <;> simp [Outcome.result]
+  have hex : (execute c s (advance t1 dur) o).2.exec = true ∧ (execute c s (advance t1 dur) o).2.started = false ∧
+      (execute c s (advance t1 dur) o).2.res = o.result (s.t.now + dur) s.nexec := by
+    unfold execute; cases o <;> simp [Outcome.result, hnow]
   unfold call
   rw [hincr]
   simp only [hc]
@@ -293,19 +290,18 @@ theorem execute_main (c : Cfg) (s : St) (t1 : TtlMap) (o : Outcome) (ho : o ≠ 
   cases o <;> first | exact absurd rfl ho | exact ⟨rfl, rfl⟩ | exact afterStoreFailure_main _ _
 
 theorem execute_answer (c : Cfg) (s : St) (t1 : TtlMap) (o : Outcome) :
-    (execute c s t1 o).2 = ⟨o.result s.t.now s.nexec, true, false⟩ := by
+    (execute c s t1 o).2 = ⟨o.result t1.now s.nexec, true, false⟩ := by
   unfold execute
   cases o <;> rfl
 
-/-- only an execution with outcome `ok` changes what is stored under the result's key -/
-theorem call_main (c : Cfg) (s : St) (o : Outcome) (ho : o ≠ .ok) :
-    (call c s o).1.t.m kMain = s.t.m kMain ∧ (call c s o).1.t.now = s.t.now := by
-  have hm := incr_main s.t 1 (some c.ttl)
-  have hx : ∀ t1, (t1.m kMain = s.t.m kMain ∧ t1.now = s.t.now) →
-      (execute c s t1 o).1.t.m kMain = s.t.m kMain ∧ (execute c s t1 o).1.t.now = s.t.now := by
+/-- only an execution with outcome `ok` changes the entry under the result's key -/
+theorem call_main (c : Cfg) (s : St) (o : Outcome) (d : Nat) (ho : o ≠ .ok) :
+    (call c s o d).1.t.m kMain = s.t.m kMain := by
+  have hm := (incr_main s.t 1 (some c.ttl)).1
+  have hx : ∀ t1, t1.m kMain = s.t.m kMain → (execute c s (advance t1 d) o).1.t.m kMain = s.t.m kMain := by
     intro t1 h1
-    have := execute_main c s t1 o ho
-    exact ⟨this.1.trans h1.1, this.2.trans h1.2⟩
+    have := (execute_main c s (advance t1 d) o ho).1
+    rw [this]; simpa using h1
   unfold call
   rcases hi : s.t.incr kAux 1 (some c.ttl) with ⟨t1, out⟩
   rw [hi] at hm
@@ -320,12 +316,44 @@ theorem call_main (c : Cfg) (s : St) (o : Outcome) (ho : o ≠ .ok) :
           · exact hm
           · cases o <;> first
               | exact absurd rfl ho
-              | exact hm
-              | (have := afterStoreFailure_main t1 ‹Stage›; exact ⟨this.1.trans hm.1, this.2.trans hm.2⟩)
+              | (simpa using hm)
+              | (have := (afterStoreFailure_main (advance t1 d) ‹Stage›).1; rw [this]; simpa using hm)
         · exact hm
       · exact hx t1 hm
     · exact hx t1 hm
   | _ => exact hm
+
+/-- the clock after a call is the instant its answer was handed out -/
+theorem call_now (c : Cfg) (s : St) (o : Outcome) (d : Nat) :
+    (call c s o d).1.t.now = servedAt s.t.now d (call c s o d).2 := by
+  have hm := (incr_main s.t 1 (some c.ttl)).2
+  have hx : ∀ t1, t1.now = s.t.now → (execute c s (advance t1 d) o).1.t.now =
+      servedAt s.t.now d (execute c s (advance t1 d) o).2 := by
+    intro t1 h1
+    rw [execute_answer]
+    unfold execute servedAt
+    cases o with
+    | storeFails stg l => cases stg <;> simp [afterStoreFailure, h1]
+    | _ => simp [save, h1]
+  unfold call
+  rcases hi : s.t.incr kAux 1 (some c.ttl) with ⟨t1, out⟩
+  rw [hi] at hm
+  simp only [] at hm
+  cases out with
+  | int h =>
+    simp only []
+    split
+    · split
+      · split
+        · split
+          · simp [servedAt, hm]
+          · cases o with
+            | storeFails stg l => cases stg <;> simp [servedAt, afterStoreFailure, hm]
+            | _ => simp [servedAt, save, hm]
+        · simp [servedAt, hm]
+      · exact hx t1 hm
+    · exact hx t1 hm
+  | _ => simp [servedAt, hm]
 
 theorem done_main (c : Cfg) (s : St) (i : Nat) (o : Outcome) (ho : o ≠ .ok) :
     (done c s i o).1.t.m kMain = s.t.m kMain ∧ (done c s i o).1.t.now = s.t.now := by
@@ -337,19 +365,22 @@ theorem done_main (c : Cfg) (s : St) (i : Nat) (o : Outcome) (ho : o ≠ .ok) :
 /-- whenever the function runs inside a call, the caller is handed what that execution produced — its result, its
 exception, the exception of its store step — or, when it was a foreground refresh that raised nothing, the stored
 result the refresh was started for -/
-theorem call_answer (c : Cfg) (s : St) (o : Outcome) (hx : (call c s o).2.exec = true) :
-    ((call c s o).2.started = false ∧ (call c s o).2.res = o.result s.t.now s.nexec) ∨
-    ((call c s o).2.started = true ∧
-      ((o.raises = true ∧ (call c s o).2.res = o.result s.t.now s.nexec) ∨
-       (o.raises = false ∧ ∃ st id, cached2 s.t = some (st, id) ∧ (call c s o).2.res = .stored st id))) := by
+theorem call_answer (c : Cfg) (s : St) (o : Outcome) (d : Nat) (hx : (call c s o d).2.exec = true) :
+    ((call c s o d).2.started = false ∧ (call c s o d).2.res = o.result (s.t.now + d) s.nexec) ∨
+    ((call c s o d).2.started = true ∧
+      ((o.raises = true ∧ (call c s o d).2.res = o.result (s.t.now + d) s.nexec) ∨
+       (o.raises = false ∧ ∃ st id, cached2 s.t = some (st, id) ∧ (call c s o d).2.res = .stored st id))) := by
   revert hx
+  have hnow := (incr_main s.t 1 (some c.ttl)).2
   unfold call
   rcases hi : s.t.incr kAux 1 (some c.ttl) with ⟨t1, out⟩
+  rw [hi] at hnow
+  simp only [] at hnow
   cases out with
   | int h =>
     simp only []
     cases hc : cached2 s.t with
-    | none => simp only []; intro _; left; rw [execute_answer]; exact ⟨rfl, rfl⟩
+    | none => simp only []; intro _; left; rw [execute_answer]; simp [hnow]
     | some p =>
       obtain ⟨st, id⟩ := p
       simp only []
@@ -364,7 +395,7 @@ theorem call_answer (c : Cfg) (s : St) (o : Outcome) (hx : (call c s o).2.exec =
             cases o <;> simp [Outcome.raises, Outcome.result]
           · simp
         · rw [if_neg hu]; simp
-      · rw [if_neg hs]; intro _; left; rw [execute_answer]; exact ⟨rfl, rfl⟩
+      · rw [if_neg hs]; intro _; left; rw [execute_answer]; simp [hnow]
   | _ => simp
 
 end CashewsVerif.Decor.Hit
